@@ -26,6 +26,8 @@ CLAIMS["C17"] = ("On every path of the maintenance routines: UpdateCheckpoint wr
 
 CLAIMS["C12"] = ("On every path of every Decoder method each successful consuming read of the stream reader is paired with exactly one offset += bytes consumed and the offset moves nowhere else; the reader is touched only by the Decoder; MustDecodeOpt returns the offset read after decoding and parsers add it to the start offset of the same iteration; a bulk argument is an n+2 buffer read fully, CRLF-checked and returned as b[:n] on every success path; ParseArgs returns bs[1:].", "3/C12")
 
+CLAIMS["C10"] = ("Every forwarding path consults every filter dimension on all of its loop paths; the black/white-list predicates answer true exactly on black-list hit or white-list miss on all their paths; FilterCmdKey keeps a key only when both key rules accepted it and marks the command filtered otherwise; projection case sets agree and projection is guarded; bookkeeping prefixes are blacklisted unconditionally; the bisected slot list is kept sorted/disjoint by insertion with bounds derived from the stored list; key-position tables are well-formed.", "3/C10")
+
 NOT_YET = "check not built yet in this revision (planned, see DESIGN.md section 3)"
 
 def main():
